@@ -919,6 +919,9 @@ class ComposerBinary(ComposerBase):
         return mpint_bytes
 
     def compose_mpint(self, value, length):
+        if value.bit_length() > 8 * length:
+            raise InvalidValue(length, type(self), 'mpint_length')
+
         mpint_bytes = self._compose_mpint(value, length, self.byte_order)
         if length < len(mpint_bytes):
             raise InvalidValue(length, type(self), 'mpint_length')
